@@ -27,7 +27,7 @@ import lena.output.render_latex as render_mod
 import lena.structures
 
 from ..kernel import RunResult, summarize, exception_origin, exception_site
-from ..seams.fs import SimFS, SimOS, Clock
+from ..seams.fs import SimTempfile, SimFS, SimOS, Clock
 from ..seams.proc import SimSubprocess, pdf_of, png_of, INPUT_RE
 
 PROPERTY = "C19"
@@ -357,6 +357,10 @@ class World(object):
         write_mod.open = self.fs.open
         latex_mod.os = self.simos
         png_mod.os = self.simos
+        for m in (write_mod, latex_mod, png_mod):
+            # an element that makes a temporary file with the tempfile module stays on the simulated disk
+            if hasattr(m, "tempfile"):
+                m.tempfile = SimTempfile(self.fs, self.simos)
         self.template_version = 0
         self.template_newline = False
         self.data_version = [0] * sc.nplots
